@@ -153,8 +153,9 @@ class Check:
         self.cov["evaluations"] += rep["stats"].get(eval_key, 0)
         if distinct_key:
             self.cov["distinct_nontrivial"] += rep["stats"].get(distinct_key, 0)
-        if traces_key:
-            self.cov["traces_validated_against_impl"] += rep["stats"].get(traces_key, 0)
+            # direction A: each TLC-emitted case/behaviour replayed into the real code is a validated trace
+            self.cov["traces_validated_against_impl"] += rep["stats"].get(distinct_key, 0)
+            self.cov["replayed_spec_cases"] = self.cov.get("replayed_spec_cases", 0) + rep["stats"].get(distinct_key, 0)
         for s in rep["samples"]:
             if len(self.cov["samples"]) < 8:
                 self.cov["samples"].append(s)
